@@ -558,8 +558,7 @@ int main()
 	// sleeps of the main thread (stop(): 250 ms, ~Session: 1 s) are skipped; service threads really wait 1 ms instead of spinning
 	vclock::sleep_hook = [](long long, bool) { if (!pthread_equal(pthread_self(), main_thread)) ::poll(0, 0, 1); };
 	GlobalLogger::set_levels(Logger::Levels(Logger::None));
-	char tmpl[] = "/tmp/verif_conc_XXXXXX";
-	g_dir = mkdtemp(tmpl);
+	g_dir = scratch_dir("conc");
 	w.listen_on();
 	std::string line;
 	while (std::getline(std::cin, line))
